@@ -2,7 +2,7 @@
     Depends on Model/ only, so it builds (and the correspondence check runs) even when a
     proof obligation of some property is broken. *)
 From Coq Require Import List ZArith NArith Bool.
-From CqlProxy Require Import Lib.Val Lib.Util Model.Config Model.LB Model.Codec Model.Retry Model.Frame Model.Override Model.Gate Model.Streams Model.Classify Model.Handled Model.SysTables Model.OneReply Model.Sessions Model.Prepared Model.Events Model.Topology Model.Hostile Model.Astra Model.Core Model.CoreDrive Model.Ast Model.AstGen Model.Front Model.Monitor Model.ConnIO Model.Pool Model.Handshake.
+From CqlProxy Require Import Lib.Val Lib.Util Model.Config Model.LB Model.Codec Model.Retry Model.Frame Model.Override Model.Gate Model.Streams Model.Classify Model.Handled Model.SysTables Model.OneReply Model.Sessions Model.Prepared Model.Events Model.Topology Model.Hostile Model.Astra Model.Core Model.CoreDrive Model.Ast Model.AstGen Model.Front Model.Monitor Model.ConnIO Model.Pool Model.Handshake Model.Heartbeat.
 Import ListNotations.
 Local Open Scope N_scope.
 
@@ -41,7 +41,7 @@ Definition run_prop (prop : bytes) (input : val) : val :=
   else if bytes_eqb prop (str "C07") then run_c07 input
   else if bytes_eqb prop (str "C08") then run_c08 input
   else if bytes_eqb prop (str "C14") then run_c14 input
-  else if bytes_eqb prop (str "C16") then (if (6 <=? vZ (nthv 0 input))%Z then run_pool input else run_c16 input)
+  else if bytes_eqb prop (str "C16") then (if (vZ (nthv 0 input) =? 8)%Z then run_hb input else if (6 <=? vZ (nthv 0 input))%Z then run_pool input else run_c16 input)
   else if bytes_eqb prop (str "C17") then run_c17 input
   else if bytes_eqb prop (str "C19") then run_c19 input
   else if bytes_eqb prop (str "C18") then L [I 0]
@@ -68,7 +68,7 @@ Definition holds_prop (prop : bytes) (input output : val) : val :=
   else if bytes_eqb prop (str "C07") then holds_c07 input output
   else if bytes_eqb prop (str "C08") then holds_c08 input output
   else if bytes_eqb prop (str "C14") then holds_c14 input output
-  else if bytes_eqb prop (str "C16") then (if (6 <=? vZ (nthv 0 input))%Z then holds_pool input output else holds_c16 input output)
+  else if bytes_eqb prop (str "C16") then (if (vZ (nthv 0 input) =? 8)%Z then holds_hb input output else if (6 <=? vZ (nthv 0 input))%Z then holds_pool input output else holds_c16 input output)
   else if bytes_eqb prop (str "C17") then holds_c17 input output
   else if bytes_eqb prop (str "C19") then holds_c19 input output
   else if bytes_eqb prop (str "C18") then (if Z.eqb (vZ (nthv 0 output)) 0 then B [] else B (str "the-race-detector-reported-a-data-race-between-these-two-accesses"))
